@@ -580,6 +580,26 @@ type SchedEntry struct {
 	Occ    int    `json:"occ"`
 }
 
+// visiblePositions: every source position at which some goroutine rested during the unrolling, i.e. the
+// positions of operations the engine treats as scheduling points in this harness.
+func visiblePositions(si *SchedInfo) []string {
+	seen := map[string]bool{}
+	var out []string
+	for _, fr := range si.Fires {
+		if !seen[fr.Pos] {
+			seen[fr.Pos] = true
+			out = append(out, fr.Pos)
+		}
+	}
+	for _, fr := range si.Final {
+		if !seen[fr.Pos] {
+			seen[fr.Pos] = true
+			out = append(out, fr.Pos)
+		}
+	}
+	return out
+}
+
 // scheduleEntries lists the fired transitions under a model for the native replay controller.
 func (e *Engine) scheduleEntries(si *SchedInfo, model map[string]uint64) []SchedEntry {
 	memo := map[int]uint64{}
